@@ -647,7 +647,7 @@ def _cons_of(it):
 
 def lp_in_A_not_B(A_cases, B_cases, n, thr=0, cap=400):
     """a point satisfying some case of A and no case of B (cases: lists of ('lin', cmp, L, R)), by exact LP over every way
-    of violating one line of each B case; complete for linear systems (up to `cap` LPs). -> point | None"""
+    of violating one line of each B case; complete for linear systems (up to `cap` LPs). -> (point | None, search was complete)"""
     budget = [cap]
 
     def feas(cons):
@@ -685,5 +685,5 @@ def lp_in_A_not_B(A_cases, B_cases, n, thr=0, cap=400):
         for cons in branch_ne(base, 0):
             p = dfs(cons, 0)
             if p is not None:
-                return p
-    return None
+                return p, True
+    return None, budget[0] >= 0      # (None, True): searched completely, no such point exists
